@@ -129,4 +129,12 @@ let run (_prefix : string) (cfg : config) (parts : string list) (_src : string)
       match ast_out with
       | Some t -> [ ("out_order", strs (order_issues (var_prefix cfg) t)) ]
       | None -> []) in
-  hooks @ classes @ directives @ erase_part @ sites_part @ hygiene_part @ shapes_part @ roundtrip_part @ literals_part @ order_part
+  let wf_part =
+    on parts "wf" (fun () ->
+      let ns name = function Some t -> [ (name ^ "_ns", JI (int_of_nat (ns_count t))) ] | None -> [] in
+      (match ast_in with
+       | Some t -> [ ("in_wf", JB (wf_all t)); ("in_optchain", JB (has_optchain t)) ]
+       | None -> [])
+      @ ns "in" ast_in @ ns "out" ast_out
+      @ [ ("prologue_ns", JI (List.fold_left (fun a s -> a + int_of_nat (ns_count s)) 0 cfg.c_prefix_stmts)) ]) in
+  hooks @ wf_part @ classes @ directives @ erase_part @ sites_part @ hygiene_part @ shapes_part @ roundtrip_part @ literals_part @ order_part
